@@ -232,9 +232,10 @@ example : defaultBal (.str "\"a\"b\"") = false ∧
 example : defaultBal (.str "(1, 2") = false ∧
     textOf ParamOut.render (createParameter env0 (mkP "x" (some tStr) true (.str "(1, 2")) {})
       = "x: String = (1, 2" ∧ Balanced "x: String = (1, 2" = false := by decide
-/-- `litBal` / `typeBal`: a quote or a trailing backslash in a `Literal["…"]` value -/
-example : typeBal (.literal [.str "a\"b"]) = false ∧ Spec.typeText true (.literal [.str "a\"b"]) = "literal<\"a\"b\">" ∧
-    Balanced "literal<\"a\"b\">" = false ∧ Balanced (Spec.typeText true (.literal [.str "a\\"])) = false := by decide
+/-- `litBal` / `typeBal`: since the repair d913d69 a quote or a trailing backslash in a `Literal["…"]` value is escaped; the
+    text that was written before (`literal<"a"b">`) was not balanced -/
+example : typeBal (.literal [.str "a\"b"]) = true ∧ Spec.typeText true (.literal [.str "a\"b"]) = "literal<\"a\\\"b\">" ∧
+    Balanced "literal<\"a\"b\">" = false ∧ Balanced (Spec.typeText true (.literal [.str "a\\"])) = true := by decide
 /-- `docBal` (description): a `*/` in the docstring closes the documentation comment early; what follows
     is read as code.  (A comment that is closed early need not unbalance the text: the glob example
     of `C02` is lexically broken and still balanced.) -/
